@@ -7,7 +7,8 @@ from harness.execute import execute, S0
 
 PROPERTY = 'C09'
 RULE = ('Exhaustive grid: operator in {+ - * / % == != < <= > >= and or, unary + - not, is int, is byte, is bool, implicit '
-        'byte->int, bool->byte->int} x operand type combination {int*int, byte*byte, byte*int, int*byte, bool*bool} x all '
+        'byte->int, bool->byte->int, not over every comparison/logic operator; also with one operand written as a literal in the source, '
+        'including positive literals beyond the signed range} x operand type combination {int*int, byte*byte, byte*int, int*byte, bool*bool} x all '
         'ordered pairs from a per-word-size boundary grid (0, +-1, 2, 127/128, 255/256/257, -128/-129, -255/-256, MIN, '
         'MIN+1, MAX, MAX-1 + seeded random values; bytes 0,1,2,127,128,254,255 + random) x usage position {value, recast '
         'to int, if-branch, while-condition, !truth_is_defeat under try/stop} x word size {2,3,4}. Operands are run-time '
@@ -168,7 +169,74 @@ def interesting(ws, *vals):
     return any(v in s for v in vals)
 
 
+def lit_values(ws, rnd):
+    """Literal spellings: in-range values and positive literals beyond the signed range (they wrap, see test_ints)."""
+    hi = (1 << (8 * ws - 1)) - 1
+    vals = [0, 1, 2, 3, 7, 8, 10, 16, 255, 256, 257, 1000, hi, hi - 1, hi + 1, hi + 2, 2 * hi + 1, 2 * hi + 2, (hi + 1) // 2,
+            -1, -2, -8, -256, -hi, -hi - 1]
+    vals += [rnd.randint(-hi - 1, 2 * hi + 1) for _ in range(max(2, EXTRA[0] // 3))]
+    return vals
+
+
+def check_lit_group(stats, ws, kind, op, ta, tb, position, seed):
+    """x OP <literal> (litright) or <literal> OP y (litleft): one program, all literals unrolled, looping over the run-time grid."""
+    rnd = random.Random(seed * 1000003 + ws * 7 + 1)
+    var_ty = ta if kind == 'litright' else tb
+    xs = grid(var_ty, ws, rnd)
+    lits = lit_values(ws, rnd)
+    stmts = []
+    exps_per_x = []
+    for li, L in enumerate(lits):
+        Lw = sgn(L, ws)
+        if kind == 'litright' and op in '/%' and Lw == 0:
+            continue
+        lit_src = '(%s)' % lit('int', L) if L < 0 else str(L)
+        expr = ('x %s %s' % (op, lit_src)) if kind == 'litright' else ('%s %s x' % (lit_src, op))
+        rty = 'int' if op in BIN_ARITH else 'bool'
+        body = body_for(position, expr, rty)
+        body = body.replace('int n = 0;', 'int n%d = 0;' % li).replace('n += 1', 'n%d += 1' % li).replace('(n >= 1)', '(n%d >= 1)' % li).replace('write(n);', 'write(n%d);' % li)
+        stmts.append((L, Lw, '{ ' + body + ' }'))
+    src = '%s[] A = [%s];\nempty @is_you() {\n  for (int i = 0; i < A.length; i += 1) {\n    %s x = A[i];\n' % (
+        var_ty, ', '.join(lit(var_ty, v) for v in xs), var_ty)
+    src += ''.join('    ' + b + '\n' for _, _, b in stmts) + '  }\n}\n'
+    exp = []
+    cases = []
+    for x in xs:
+        for L, Lw, _ in stmts:
+            if kind == 'litright':
+                res = binop(op, x, Lw, ws)
+            else:
+                res = binop(op, Lw, x, ws)
+            if res is None:
+                # run-time divisor zero with a literal dividend: excluded (C05) - but the statement still runs; skip program
+                return None
+            exp.append(expect_for(position, res) + ';')
+            cases.append((x, L))
+    r = execute(src, [], ws=ws, S=S0, budget=60_000_000)
+    stats.evaluated(len(cases))
+    stats.cls('%s_%s' % (kind, position), len(cases))
+    stats.cls('ws%d' % ws, len(cases))
+    for x, L in cases:
+        if interesting(ws, x, sgn(L, ws)) or not (-(1 << (8 * ws - 1)) <= L < (1 << (8 * ws - 1))):
+            stats.nt('%s:%s:%s:%s:%d:%r:%r' % (kind, op, var_ty, position, ws, x, L))
+    got = r.out.decode('latin-1')
+    if got != ''.join(exp) or not r.won:
+        parts = got.split(';')
+        for k, ((x, L), e) in enumerate(zip(cases, exp)):
+            if k >= len(parts) or parts[k] + ';' != e:
+                msg = 'ws=%d %s `%s` with literal %d and run-time %s operand %r in position %s: expected %r got %r (flags %r)' % (
+                    ws, kind, op, L, var_ty, x, position, e, parts[k] if k < len(parts) else None, r.flags)
+                return {'kind': 'oplit', 'value': [ws, kind, op, ta, tb, position], 'message': msg, 'signature': '%s:%s:%s' % (kind, op, position)}
+        return {'kind': 'oplit', 'value': [ws, kind, op, ta, tb, position], 'message': 'ws=%d %s %s: output ok, end state flags=%r' % (ws, kind, op, r.flags),
+                'signature': '%s:%s:%s' % (kind, op, position)}
+    return None
+
+
 def check_group(stats, ws, kind, op, ta, tb, position, seed):
+    if kind in ('litright', 'litleft'):
+        if kind == 'litleft' and op in '/%':
+            return None     # a zero in the run-time grid would fault: covered by C05 and by the run-time/run-time groups
+        return check_lit_group(stats, ws, kind, op, ta, tb, position, seed)
     rnd = random.Random(seed * 1000003 + ws)
     unary = kind == 'unary'
     if unary:
@@ -177,14 +245,17 @@ def check_group(stats, ws, kind, op, ta, tb, position, seed):
         pairs = list(itertools.product(grid(ta, ws, rnd), grid(tb, ws, rnd)))
     exps = []
     keep = []
+    notbin = kind == 'notbin'
     for x, y in pairs:
         res = unop(op, ta, x, ws) if unary else binop(op, x, y, ws)
         if res is None:
             continue
+        if notbin:
+            res = ('bool', not res[1])
         keep.append((x, y))
         exps.append(expect_for(position, res))
-    expr = UNARY_SRC[op] if unary else 'x %s y' % op
-    rty = (unop(op, ta, keep[0][0], ws) if unary else binop(op, keep[0][0], keep[0][1], ws))[0]
+    expr = UNARY_SRC[op] if unary else ('not (x %s y)' % op if notbin else 'x %s y' % op)
+    rty = 'bool' if notbin else (unop(op, ta, keep[0][0], ws) if unary else binop(op, keep[0][0], keep[0][1], ws))[0]
     src = program(ta, tb, [p[0] for p in keep], [p[1] for p in keep], body_for(position, expr, rty), unary)
     r = execute(src, [], ws=ws, S=S0, budget=40_000_000)
     stats.evaluated(len(keep))
@@ -229,6 +300,16 @@ def groups():
     for op, tys in UNARY_TYPES.items():
         for ta in tys:
             out.append(('unary', op, ta, None))
+    # compositions that the lowerings special-case: not over a comparison / logic operator
+    for op in BIN_CMP + BIN_LOGIC:
+        out.append(('notbin', op, 'int', 'int'))
+        if op in BIN_CMP:
+            out.append(('notbin', op, 'byte', 'int'))
+    # one operand is a literal in the source (immediates take different code paths than run-time operands)
+    for op in BIN_ARITH + BIN_CMP:
+        for ta in ('int', 'byte'):
+            out.append(('litright', op, ta, 'int'))
+            out.append(('litleft', op, 'int', ta))
     return out
 
 
@@ -260,6 +341,10 @@ def run_shard(desc, seed, tier):
 
 
 def replay(case):
+    if case.get('kind') == 'oplit':
+        ws, kind, op, ta, tb, position = case['value']
+        v = check_lit_group(Stats(), ws, kind, op, ta, tb, position, 1)
+        return v['message'] if v else None
     ws, kind, op, ta, tb, position, x, y = case['value']
     st_ = Stats()
     if x is None:
@@ -269,7 +354,9 @@ def replay(case):
     res = unop(op, ta, x, ws) if unary else binop(op, x, y, ws)
     if res is None:
         return None
-    expr = UNARY_SRC[op] if unary else 'x %s y' % op
+    if kind == 'notbin':
+        res = ('bool', not res[1])
+    expr = UNARY_SRC[op] if unary else ('not (x %s y)' % op if kind == 'notbin' else 'x %s y' % op)
     src = program(ta, tb, [x], [y], body_for(position, expr, res[0]), unary)
     r = execute(src, [], ws=ws, S=S0)
     exp = expect_for(position, res) + ';'
